@@ -41,6 +41,10 @@ def run(ctx, tier):
     ctx.rule("E2b", "std::get<T> on a variant only when it holds T")
     ctx.rule("T1", "the URL parser's state loop has a lexicographic ranking (state order, remaining input)")
     ctx.rule("T2", "loops keep the variant that makes them terminate")
+    ctx.rule("S1", "(shared with C07) every shift of a url_aggregator offset is applied to every later offset on the path")
+    ctx.rule("S2", "(shared with C07) optional offsets are shifted only when known present")
+    ctx.rule("S3", "(shared with C07) every offset behind a buffer edit position is shifted or reassigned on the path")
+    ctx.rule("S6", "(shared with C07) byte accounting of the in-place editors")
     ctx.rule("M1", "fixed-width block reads/writes (SIMD loads, 8-byte memcpy words) stay inside the buffer")
     ctx.rule("M2", "copies into fixed-size stack arrays are bounded by the array size")
     cfgs = ["release"] if tier == "quick" else ["release", "devchecks", "amalgamated", "avx512"]
@@ -57,6 +61,11 @@ def run(ctx, tier):
         ctx.set_config(name)
         check_parser_loop(ctx, fxs[name])
         check_loops(ctx, fxs[name], name)
+    # a url_aggregator offset that is off by a few bytes is an out-of-range substr()/erase() (std::out_of_range escapes,
+    # or bytes outside the component are read) for particular component lengths: the offset discipline is part of C02
+    from rules import c07
+    ctx.set_config("release")
+    c07.check_offsets_only(ctx, fxs["release"])
 
 
 # ---------------------------------------------------------------------------
@@ -166,7 +175,7 @@ def split_targs(t):
 
 def check_engagement(ctx, fx):
     post = Promises(fx)
-    nsite = nget = 0
+    nsite = nget = ndead = 0
     for f in fx.functions:
         if not first_party(f):
             continue
@@ -211,7 +220,8 @@ def check_engagement(ctx, fx):
         for bid, i, s, n in sites:
             fs = mf.facts_before(bid, i)
             if fs is None:
-                continue          # unreachable code
+                ndead += 1        # no feasible path reaches it (dead after a return, or a disabled `if constexpr` arm)
+                continue
             nsite += 1
             p = X.path(n["recv"])
             where = (s.get("loc") or s.get("cond_loc") or f["loc"]).replace("/repo/", "")
@@ -226,7 +236,11 @@ def check_engagement(ctx, fx):
             kind = "throws std::bad_optional_access / bad_expected_access" if n.get("name") == "value" else "is undefined behaviour"
             ctx.fail("E2", key, "`%s` is reached on a path where nothing establishes that `%s` is engaged; on a disengaged object it %s"
                      % (X.show(n)[:70], X.show(n["recv"])[:50], kind), where=where)
-    ctx.floor("E2", nsite, 300, "accesses to optional-like objects")
+    ctx.floor("E2", nsite, 340, "accesses to optional-like objects")
+    ctx.note("E2 (%s): %d access sites are in code no feasible path reaches (skipped)" % (ctx.config, ndead))
+    if ndead > 4:
+        ctx.broken("E2: %d optional accesses are classified unreachable (at most 4 tolerated; 0 today): the feasibility pruning of the "
+                   "dataflow has gone wrong or the code changed shape" % ndead)
     ctx.floor("E2b", nget, 6, "std::get<T>(variant) sites")
 
 
